@@ -165,7 +165,8 @@ CHECKS['C07'] = dict(
     rule='generated scenarios: 1-3 waiter threads (wait, waitFor(20s), or short waitFor) that drain the queue when released, 1-2 enqueuer threads whose steps are plain enqueues or enqueues inside '
          'DisableQueueNotify scopes nested 1-3 deep with pauses; EventQueue (std::mutex, SpinLock) and HeterEventQueue; injected Threading policy with an own condition variable that keeps an explicit '
          'waiter list (no spurious wake-ups), schedule perturbation off/random/targeted (waiter delayed between predicate and blocking, enqueuer delayed after the counter decrement, ...), half of the '
-         'parking scenarios follow a template aimed at the window named in the statement; verdicts from state at quiescence (enqueuers joined, every waiter in the waiter list): events pending + '
+         'parking scenarios follow a template aimed at the window named in the statement; a fifth of them add a third thread that keeps taking the pending events out and putting them back '
+         '(processIf declining everything / processUntil stopping at once) while the enqueuer is delayed after releasing the queue mutex and between its unlocked reads; verdicts from state at quiescence (enqueuers joined, every waiter in the waiter list): events pending + '
          'notification enabled => lost wake-up; wait() covered by one DisableQueueNotify lifetime must not return; waitFor false only after its timeout; wait/true only after some enqueue began; '
          'distinct_nontrivial = distinct lock-order hashes',
     jobs=[J('drv_wait', 'plain', '', 10000, 200000, shards=8, shards_thorough=16), J('drv_wait', 'tsan', '', 1200, 16000, seed_offset=1, shards=8, shards_thorough=16)],
